@@ -125,7 +125,7 @@ impl<'ast> Visit<'ast> for AssignFinder {
             }
             Expr::MethodCall(m) => {
                 let n = m.method.to_string();
-                if matches!(n.as_str(), "swap" | "push" | "pop" | "fill" | "sort_by" | "dedup" | "append" | "insert" | "remove" | "push_str") {
+                if matches!(n.as_str(), "next" | "swap" | "push" | "pop" | "fill" | "sort_by" | "dedup" | "append" | "insert" | "remove" | "push_str") {
                     if let Some(b) = Self::base(&m.receiver) {
                         self.names.push(b);
                     }
@@ -283,13 +283,14 @@ pub fn tr_stmts(cx: &mut Ctx, stmts: &[Stmt], k: &Cont) -> R<Tr> {
                 return tr_stmts_branching(cx, &st[0], &lb);
             }
             let v = tr_expr(cx, &init.expr, hint.as_ref())?;
+            let pre = cx.take_prelude();
             let vty = match (&declared, &v.ty) {
                 (Some(d), _) => d.clone(),
                 (None, t) => t.clone(),
             };
             let pat = bind_let_pat(cx, &l.pat, &vty)?;
             let r = tr_stmts(cx, rest, k)?;
-            Ok(Tr { s: format!("let {} := {}\n{}", pat, v.val(), r.s), ty: r.ty, prop: r.prop })
+            Ok(Tr { s: format!("{}let {} := {}\n{}", pre, pat, v.val(), r.s), ty: r.ty, prop: r.prop })
         }
         Stmt::Macro(m) => stmt_macro(cx, &m.mac, rest, k),
         Stmt::Expr(e, semi) => {
@@ -302,10 +303,11 @@ pub fn tr_stmts(cx: &mut Ctx, stmts: &[Stmt], k: &Cont) -> R<Tr> {
                             return tr_stmts_branching(cx, s, k);
                         }
                         let v = tr_expr(cx, e, declared.as_ref())?;
+                        let pre = cx.take_prelude();
                         let vty = declared.clone().unwrap_or(v.ty.clone());
                         let p = bind_let_pat(cx, pat, &vty)?;
                         let r = tr_stmts(cx, rest2, k2)?;
-                        return Ok(Tr { s: format!("let {} := {}\n{}", p, v.val(), r.s), ty: r.ty, prop: r.prop });
+                        return Ok(Tr { s: format!("{}let {} := {}\n{}", pre, p, v.val(), r.s), ty: r.ty, prop: r.prop });
                     }
                 }
                 if let Cont::Value(t) = k {
@@ -317,7 +319,12 @@ pub fn tr_stmts(cx: &mut Ctx, stmts: &[Stmt], k: &Cont) -> R<Tr> {
                                 return Ok(Tr::new(emit_return(cx, "panicV".into()), t.clone().unwrap_or(Ty::Never)));
                             }
                         }
-                        return tr_expr(cx, e, t.as_ref());
+                        let v = tr_expr(cx, e, t.as_ref())?;
+                        let pre = cx.take_prelude();
+                        if pre.is_empty() {
+                            return Ok(v);
+                        }
+                        return Ok(Tr::new(format!("{}{}", pre, v.val()), v.ty));
                     }
                 }
             }
@@ -336,6 +343,7 @@ fn tr_stmts_branching(cx: &mut Ctx, s: &Stmt, k: &Cont) -> R<Tr> {
     match strip(e) {
         Expr::If(i) if i.else_branch.is_some() && !matches!(strip(&i.cond), Expr::Let(_)) => {
             let c = tr_expr(cx, &i.cond, Some(&Ty::Bool))?;
+            let pre = cx.take_prelude();
             let a = with_scopes_saved(cx, |cx| {
                 cx.push();
                 tr_stmts(cx, &i.then_branch.stmts, k)
@@ -345,10 +353,11 @@ fn tr_stmts_branching(cx: &mut Ctx, s: &Stmt, k: &Cont) -> R<Tr> {
                 let st = [Stmt::Expr((**els).clone(), None)];
                 tr_stmts_branching(cx, &st[0], k)
             })?;
-            Ok(Tr::new(format!("(if {} then\n{}\n else\n{})", c.as_prop(), a.val(), b.val()), join_ty(&a.ty, &b.ty)))
+            Ok(Tr::new(format!("{}(if {} then\n{}\n else\n{})", pre, c.as_prop(), a.val(), b.val()), join_ty(&a.ty, &b.ty)))
         }
         Expr::Match(m) => {
             let scrut = tr_expr(cx, &m.expr, None)?;
+            let pre = cx.take_prelude();
             let mut arms = vec![];
             let mut ty = Ty::Never;
             for arm in &m.arms {
@@ -365,7 +374,7 @@ fn tr_stmts_branching(cx: &mut Ctx, s: &Stmt, k: &Cont) -> R<Tr> {
                 ty = join_ty(&ty, &r.1.ty);
                 arms.push(format!(" | {} =>\n{}", r.0, r.1.val()));
             }
-            Ok(Tr::new(format!("(match {} with\n{})", scrut.val(), arms.join("\n")), ty))
+            Ok(Tr::new(format!("{}(match {} with\n{})", pre, scrut.val(), arms.join("\n")), ty))
         }
         Expr::Block(b) => with_scopes_saved(cx, |cx| {
             cx.push();
@@ -453,6 +462,7 @@ fn stmt_if(cx: &mut Ctx, i: &ExprIf, rest: &[Stmt], k: &Cont) -> R<Tr> {
         } else {
             (tr_expr(cx, &i.cond, Some(&Ty::Bool))?.as_prop(), None)
         };
+        let pre = cx.take_prelude();
         let mut pat_s = String::new();
         let a = with_scopes_saved(cx, |cx| {
             cx.push();
@@ -474,9 +484,9 @@ fn stmt_if(cx: &mut Ctx, i: &ExprIf, rest: &[Stmt], k: &Cont) -> R<Tr> {
         })?;
         let ty = join_ty(&a.ty, &b.ty);
         if let Some((scrut, _)) = bind_pat {
-            return Ok(Tr::new(format!("(match {} with\n | {} =>\n{}\n | _ =>\n{})", scrut.val(), pat_s, a.val(), b.val()), ty));
+            return Ok(Tr::new(format!("{}(match {} with\n | {} =>\n{}\n | _ =>\n{})", pre, scrut.val(), pat_s, a.val(), b.val()), ty));
         }
-        return Ok(Tr::new(format!("(if {} then\n{}\n else\n{})", head, a.val(), b.val()), ty));
+        return Ok(Tr::new(format!("{}(if {} then\n{}\n else\n{})", pre, head, a.val(), b.val()), ty));
     }
     // no jumps: SSA on the assigned outer variables
     let vars = assigned_outer(cx, &|f| {
@@ -486,6 +496,7 @@ fn stmt_if(cx: &mut Ctx, i: &ExprIf, rest: &[Stmt], k: &Cont) -> R<Tr> {
         return tr_stmts(cx, rest, k);
     }
     let c = tr_expr(cx, &i.cond, Some(&Ty::Bool))?;
+    let pre0 = cx.take_prelude();
     let tup = Cont::Tuple(vars.clone());
     let a = with_scopes_saved(cx, |cx| {
         cx.push();
@@ -504,7 +515,7 @@ fn stmt_if(cx: &mut Ctx, i: &ExprIf, rest: &[Stmt], k: &Cont) -> R<Tr> {
     })?;
     let (pat, _) = tuple_of(cx, &vars);
     let r = tr_stmts(cx, rest, k)?;
-    Ok(Tr { s: format!("let {} := (if {} then\n{}\n else\n{})\n{}", pat, c.as_prop(), a.s, b.s, r.s), ty: r.ty, prop: r.prop })
+    Ok(Tr { s: format!("{}let {} := (if {} then\n{}\n else\n{})\n{}", pre0, pat, c.as_prop(), a.s, b.s, r.s), ty: r.ty, prop: r.prop })
 }
 
 fn assign(cx: &mut Ctx, left: &Expr, newval: impl FnOnce(&mut Ctx, &Tr) -> R<String>) -> R<(String, String)> {
@@ -686,6 +697,7 @@ fn stmt_expr(cx: &mut Ctx, e: &Expr, rest: &[Stmt], k: &Cont) -> R<Tr> {
 
 fn stmt_match(cx: &mut Ctx, m: &ExprMatch, rest: &[Stmt], k: &Cont) -> R<Tr> {
     let scrut = tr_expr(cx, &m.expr, None)?;
+    let pre = cx.take_prelude();
     let any_jump = m.arms.iter().any(|a| has_jump_expr(&a.body));
     let vars = assigned_outer(cx, &|f| {
         for a in &m.arms {
@@ -714,14 +726,14 @@ fn stmt_match(cx: &mut Ctx, m: &ExprMatch, rest: &[Stmt], k: &Cont) -> R<Tr> {
         arms.push(format!(" | {} =>\n{}", r.0, r.1.val()));
     }
     if any_jump {
-        return Ok(Tr::new(format!("(match {} with\n{})", scrut.val(), arms.join("\n")), ty));
+        return Ok(Tr::new(format!("{}(match {} with\n{})", pre, scrut.val(), arms.join("\n")), ty));
     }
     if vars.is_empty() {
         return tr_stmts(cx, rest, k);
     }
     let (pat, _) = tuple_of(cx, &vars);
     let r = tr_stmts(cx, rest, k)?;
-    Ok(Tr { s: format!("let {} := (match {} with\n{})\n{}", pat, scrut.val(), arms.join("\n"), r.s), ty: r.ty, prop: r.prop })
+    Ok(Tr { s: format!("{}let {} := (match {} with\n{})\n{}", pre, pat, scrut.val(), arms.join("\n"), r.s), ty: r.ty, prop: r.prop })
 }
 
 pub fn block_has_return(b: &Block) -> bool {
